@@ -350,8 +350,10 @@ SPECS = ["tensorly.tenalg.core_tenalg.outer_product.outer", "tensorly.tenalg.cor
 
 def broadcast_arity(ctx: Ctx, rule="BROADCAST-ARITY"):
     res = ctx.res
+    from ..inline import with_inlined
+
     for q in SPECS:
-        f = ctx.repo.func(q)
+        f = with_inlined(ctx.repo, ctx.repo.func(q))  # private helpers wrapping the product are expanded
         k = Karr(f)
         k.classify()
         k.final_from = 0
